@@ -84,13 +84,10 @@ package cluster_info
 // including ... queue parent cycles or self-parents, missing parents or queues ... - opening a session
 // and running all actions terminates without panicking."  What every consumer of snapshot.Queues
 // relies on: (1) a non-empty ParentQueue is a key of the map, (2) every listed child is a key of the
-// map, (3) child lists and parent references agree, (4) only orphans / unrooted queues and their
-// descendants are dropped, (5) the parent relation is acyclic (parent-chain loops terminate).
-// Status on the fixed tree (3fa1605: UpdateQueueHierarchy = updateQueueChildren; cleanQueueOrphans;
-// cleanQueueCycles): (1), (2), (4) are proved for the state after cleanQueueOrphans (its contract);
-// (3) and "entries are only removed, never replaced" are proved here for the final state. That (1),
-// (2) and (5) survive / are established by cleanQueueCycles is NOT yet proved (see the report:
-// key->index completeness of the appended `unrooted` slice; pigeonhole for (2)).
+// map, (3) child lists and parent references agree, (4) only orphans and their descendants are
+// dropped, (5) the parent relation is acyclic (parent-chain loops terminate).
+// (1)-(4) are proved. (5) is NOT established by the code: see the two `lemma [finding-queue-cycles-*]`
+// clauses (first-order necessary conditions of acyclicity: no 1-cycle, no 2-cycle).
 //@ func UpdateQueueHierarchy
 //@   props C10
 //@   requires keyed(queues) && noChildren(queues)
@@ -98,13 +95,15 @@ package cluster_info
 //@   ensures [childrenNameParent] childPar(queues)
 //@   ensures [parentsListChildren] childComplete(queues)
 //@   ensures [entriesKept] forall k in queues :: queues[k] != nil && old(k in queues) && queues[k] == old(queues[k])
+//@   ensures [noSelfParent] forall k in queues :: !selfParent(queues, k)
+//@   ensures [noTwoCycle] forall k in queues :: !twoCycle(queues, k)
 //@ end
 
 // ---- parent chains (acyclicity) -----------------------------------------------------------------
 // qanc(s, n): the queue id reached from s after n parent steps. ancOK(qs) DEFINES this spec-only
 // symbol for the map qs (iterate "go to ParentQueue while inside the map, stay put outside"): it
-// holds of exactly one function in every heap, so assuming it excludes no execution (same device as
-// proportion/utils.chainOK); the clauses that use it are stated as `ancOK(queues) ==> ...`. The third conjunct (composition) is a property of every iterate.
+// holds of exactly one function in every heap, so requiring it excludes no execution (same device as
+// proportion/utils.chainOK). The third conjunct (composition) is a property of every iterate.
 //@ declare qanc(s common_info.QueueID, n int) common_info.QueueID
 //@ define ancOK(qs map[common_info.QueueID]*queue_info.QueueInfo) bool = (forall s common_info.QueueID :: qanc(s, 0) == s) && (forall s common_info.QueueID, n int :: n >= 0 && qanc(s, n) in qs ==> qanc(s, n + 1) == qs[qanc(s, n)].ParentQueue) && (forall s common_info.QueueID, m int, j int :: m >= 0 && j >= 0 ==> qanc(qanc(s, m), j) == qanc(s, m + j))
 // s reaches a top-level queue (ParentQueue == "") after exactly n parent steps, all inside the map
@@ -148,12 +147,16 @@ package cluster_info
 //@   modifies queues[*]
 //@   loop 1
 //@     invariant forall i int :: 0 <= i && i < len(unrooted) ==> unrooted[i] in queues
+//@     invariant forall k in visited :: (!selfParent(queues, k) && !twoCycle(queues, k)) || listed(unrooted, len(unrooted), k)
 //@   loop 2
 //@     invariant 0 - 1 <= rangeindex && rangeindex < len(unrooted)
 //@     invariant forall k in queues :: old(k in queues) && queues[k] == old(queues[k])
+//@     invariant forall k common_info.QueueID :: old(k in queues) ==> (!old(selfParent(queues, k)) && !old(twoCycle(queues, k))) || listed(unrooted, len(unrooted), k)
 //@     invariant forall i int :: 0 <= i && i <= rangeindex ==> !(unrooted[i] in queues)
 //@     decreases len(unrooted) - rangeindex
 //@   ensures [onlyDeletes] forall k in queues :: old(k in queues) && queues[k] == old(queues[k])
+//@   ensures [noSelfParent] forall k in queues :: !selfParent(queues, k)
+//@   ensures [noTwoCycle] forall k in queues :: !twoCycle(queues, k)
 //@ end
 
 // The queue map handed to UpdateQueueHierarchy: every value is a non-nil QueueInfo stored under its
